@@ -7,7 +7,7 @@ from lib import common as C
 from py2v import gen
 
 PROP = "C03"
-PROPS_FILES = ["Props/C03.v", "Props/C03_psd.v", "Props/C03_se_psd.v", "Props/C03_c0_1d_psd.v", "Props/C03_matern_psd.v"]
+PROPS_FILES = ["Props/C03.v", "Props/C03_psd.v", "Props/C03_se_psd.v", "Props/C03_c0_1d_psd.v", "Props/C03_matern_psd.v", "Props/C03_matern_psd_c0.v", "Props/C03_matern_psd_c2.v", "Props/C03_matern_psd_c4.v"]
 ASSUMPTIONS = [
   "real arithmetic (Coq R); float rounding outside the model - the searcher compares every entry with 1e-9 * alpha absolutely AND, wherever phi(r) is a normal double (> 1e-280), "
   "relatively to alpha*phi(r) itself (1e-9 plus the first-order effect of the rounding of the squared distance through the entry point used: pairwise, pdist, or the "
